@@ -106,7 +106,7 @@ def run(ctx):
                     'Real objects: random sets of 2-6 chemicals (0-2 without groups), interior / vertex / near-vertex / trace / edge compositions, 250-450 K, UNIFAC, '
                     'Dortmund, NIST, ideal: side effects, ones for chemicals without groups, functional form vs object, permutation, pure limit, Gibbs-Duhem; ideal '
                     'activity / fugacity / Poynting objects return exactly one')
-    return 'model_checking', cov, ASSUME
+    return 'exploration', cov, ASSUME
 
 
 def replay(ctx, data):
